@@ -16,7 +16,7 @@ func init() {
 		Decided: "C19.a no function on the request path stores, map-updates, appends in place or copies into a shared object (Container, WebService, Route, CORS configuration, ...), a package-level variable or a variable captured from configuration-time code, unless the base is a request-local copy; " +
 			"C19.b NewRequest/NewResponse build fresh objects with fresh maps and no per-request object (Request, Response, FilterChain, their maps) is ever stored into a shared-type field or a global; C19.c selected routes are per-request copies; " +
 			"C19.d everything controlled by the trace flag only logs (no return, no store, nothing computed there is used afterwards); C19.e no result-affecting nondeterminism source on the request path (map iteration order, multi-way select, time, math/rand); " +
-			"C19.f the package-level configuration variables read on the request path are written only by configuration code. C19.g = C13.a (pooled objects are used exclusively between acquire and release). C19.h = C16.g (pooled byte containers are empty on reuse). C19.i a struct of the module that goes through a sync.Pool has every field overwritten before each Put or after each Get.",
+			"C19.f the package-level configuration variables read on the request path are written only by configuration code. C19.g = C13.a (pooled objects are used exclusively between acquire and release). C19.h = C16.g (pooled byte containers are empty on reuse). C19.i a struct of the module that goes through a sync.Pool has every field overwritten before each Put or after each Get. C19.j every call through traceLogger is controlled by the trace flag.",
 		NotDecided:  "byte-equality of responses (a runtime comparison); races inside user callbacks; net/http's own state; caches inside the compressor providers (their content is unobservable given C13.b).",
 		Assumptions: []string{"objects of external types reached on the request path (http.Request, bytes.Buffer, http.Header of this request/response) are per request"},
 		Rules: []Rule{
@@ -40,6 +40,8 @@ func init() {
 				Run: ruleC19f},
 			{ID: "C19.h", Template: "T-FRESH", Required: true, Run: rulePooledBytesClean,
 				Doc: "No request leaves bytes behind for the next: pooled byte containers are emptied before Put or after Get (same obligations as C16.g)."},
+			{ID: "C19.j", Template: "T-GUARD", Required: true, Run: ruleTraceLoggerGuarded,
+				Doc: "'Whether or not trace logging is enabled': every call through the package-level traceLogger is controlled by the trace flag. TraceLogger(nil) stores a nil logger and switches the flag off; an unguarded call is then a call on a nil interface (and with the default logger it logs although tracing is off)."},
 			{ID: "C19.i", Template: "T-FRESH", Required: true, Run: rulePooledStructsReset,
 				Doc: "A struct of the module that is recycled through a sync.Pool (a pooled *Request, *Response, FilterChain) has every field overwritten before each Put or after each Get: a field nobody resets (the attributes map of a pooled Request) is what the previous request left and is read by the next."},
 			{ID: "C19.g", Template: "T-TYPESTATE", Required: true,
